@@ -418,6 +418,13 @@ struct Cn {
     unjudged_partial: AtomicU64,
     classes: Mutex<std::collections::BTreeMap<String, u64>>,
     restarts: AtomicU64,
+    /// failed liveness probes so far: past a small number the remaining faults are skipped (each failed
+    /// probe costs its full 10 s timeout, and the verdict is already in)
+    wedges: AtomicU64,
+}
+const MAX_WEDGES: u64 = 24;
+fn enough(cn: &Cn) -> bool {
+    cn.wedges.load(Ordering::Relaxed) >= MAX_WEDGES
 }
 
 fn probe(ctx: &Ctx, addr: std::net::SocketAddr, cn: &Cn, case: &Value, after: &str) -> bool {
@@ -425,6 +432,7 @@ fn probe(ctx: &Ctx, addr: std::net::SocketAddr, cn: &Cn, case: &Value, after: &s
     match oneshot(addr, &get("/health", ""), false, POS) {
         ReadOutcome::Resp(r) if r.status == 200 => true,
         o => {
+            cn.wedges.fetch_add(1, Ordering::Relaxed);
             ctx.report(Violation {
                 sig: json!({"kind":"server_down_or_wedged","after": after}),
                 case: case.clone(),
@@ -713,6 +721,9 @@ fn tls_faults(ctx: &Ctx, cn: &Cn, samples: &Samples) -> Value {
         }
         let mut open: Vec<Conn> = vec![];
         for (class, bytes, end) in &faults {
+            if enough(cn) {
+                continue;
+            }
             n_faults += 1;
             cn.faults.fetch_add(1, Ordering::Relaxed);
             *cn.classes.lock().unwrap().entry(class.clone()).or_insert(0) += 1;
@@ -745,6 +756,7 @@ fn tls_faults(ctx: &Ctx, cn: &Cn, samples: &Samples) -> Value {
                 Ok(mut t) => t.handshake(POS).is_ok() && matches!(t.roundtrip(&get("/health", ""), POS), Ok(r) if r.status == 200),
             };
             if !ok {
+                cn.wedges.fetch_add(1, Ordering::Relaxed);
                 ctx.report(Violation {
                     sig: json!({"kind":"server_down_or_wedged","after": class, "transport": "tls"}),
                     case,
@@ -762,6 +774,9 @@ fn tls_faults(ctx: &Ctx, cn: &Cn, samples: &Samples) -> Value {
                 continue;
             }
             for cut in [b.len() / 3, b.len() - 1, b.len()] {
+                if enough(cn) {
+                    continue;
+                }
                 n_faults += 1;
                 cn.faults.fetch_add(1, Ordering::Relaxed);
                 if let Ok(mut t) = vh::tls::TlsConn::connect(srv.addr, &ccfg) {
@@ -782,6 +797,7 @@ fn tls_faults(ctx: &Ctx, cn: &Cn, samples: &Samples) -> Value {
                     Ok(mut t) => t.handshake(POS).is_ok() && matches!(t.roundtrip(&get("/health", ""), POS), Ok(r) if r.status == 200),
                 };
                 if !ok {
+                    cn.wedges.fetch_add(1, Ordering::Relaxed);
                     ctx.report(Violation {
                         sig: json!({"kind":"server_down_or_wedged","after": format!("tls/{name}/cut"), "transport": "tls"}),
                         case: json!({"kind":"fault_sequence","mode": format!("{mode:?}"), "transport": "tls", "faults": [{"class": format!("tls/{name}"), "bytes_hex": hex(&b[..cut]), "bytes_len": cut, "end": "Close", "burst": 0}]}),
@@ -804,7 +820,7 @@ fn main() {
     let cn = Cn {
         faults: AtomicU64::new(0), sequences: AtomicU64::new(0), probes: AtomicU64::new(0), responses: AtomicU64::new(0),
         malformed_classified: AtomicU64::new(0), wellformed_classified: AtomicU64::new(0), no_answer: AtomicU64::new(0), unjudged_partial: AtomicU64::new(0),
-        classes: Mutex::new(Default::default()), restarts: AtomicU64::new(0),
+        classes: Mutex::new(Default::default()), restarts: AtomicU64::new(0), wedges: AtomicU64::new(0),
     };
     if args.replay.is_some() {
         Ctx::replay_and_exit(&args, level, "E3", |ctx, case| {
@@ -845,7 +861,7 @@ fn main() {
         par_for(nthreads, nthreads, 0, |t| {
             let mut srv = start(mode);
             for (i, f) in singles.iter().enumerate() {
-                if i % nthreads != t {
+                if i % nthreads != t || enough(&cn) {
                     continue;
                 }
                 let case = json!({"kind":"fault_sequence","mode": format!("{mode:?}"), "faults": [fault_json(f)]});
@@ -869,7 +885,7 @@ fn main() {
     let mut caps: Vec<String> = vec![];
     let done = AtomicU64::new(0);
     par_for(total, 8, ctx.seed, |code| {
-        if ctx.elapsed() > budget {
+        if ctx.elapsed() > budget || enough(&cn) {
             return;
         }
         let mut idx = vec![];
@@ -918,6 +934,7 @@ fn main() {
         "server_restarts_after_failed_probe": cn.restarts.load(Ordering::Relaxed),
         "fault_classes": *cn.classes.lock().unwrap(),
         "caps_hit": caps, "exhaustive": caps.is_empty(),
+        "stopped_early_after_repeated_liveness_failures": enough(&cn),
         "samples": samples.take(),
     });
     ctx.finish(cov, vec![
